@@ -1,6 +1,6 @@
 (* The executed instance of the SpGEMM family (C06): Qc with zero_tol = 1/10^16. *)
 From Coq Require Import QArith Qcanon Qcabs.
-From Raptor Require Import Base.Sums Sparse.Defs Sparse.Spgemm Extract.Inst.
+From Raptor Require Import Base.Sums Sparse.Defs Sparse.Spgemm Dist.ParSpgemm Extract.Inst.
 
 Local Open Scope Qc_scope.
 
@@ -13,7 +13,6 @@ Definition q_mat_mult_T := mat_mult_T Qc 0 Qcplus Qcmult Qc_smallm.
 Definition q_galerkin := galerkin Qc 0 Qcplus Qcmult Qc_smallm.
 
 (* distributed products: the executed instance uses the exchange that delivers the owners' rows *)
-From Raptor Require Import Dist.ParSpgemm.
 Definition q_fetch (B : csr Qc) (pk pc : list nat) := fun (_ k : nat) => owner_row Qc B pk pc k.
 Definition q_par_mult_on A B pa pk pc r :=
   par_mult_on Qc 0 Qcplus Qcmult Qc_smallm Qc_small (q_fetch B pk pc) A B pa pk pc r.
